@@ -362,6 +362,7 @@ type Interp struct {
 	onCall    func(ev callEvent)                                // every resolved call (package functions only)
 	postCall  func(callee *ssa.Function, args []AV, res AV) AV  // may refine results (e.g. the IsNil anchor)
 	onExtCall func(site ssa.Instruction, tag string, args []AV) // invocation of a caller-supplied callback
+	onResult  func(site *ssa.Call, res AV)                      // abstract result of every evaluated call instruction
 	globals   map[*ssa.Global]AV                                // known initial values of package-level variables
 	profile   map[string]int
 	execEdge  map[[2]*ssa.BasicBlock]bool // CFG edges found executable (any activation)
@@ -369,7 +370,7 @@ type Interp struct {
 }
 
 func newInterp(w *World) *Interp {
-	ip := &Interp{w: w, maxDepth: 24, maxSteps: 150000, inprog: map[string]*memoEntry{}, done: map[string]doneEntry{}, minHit: 1 << 30, faultSeen: map[string]bool{},
+	ip := &Interp{w: w, maxDepth: interpDepth(), maxSteps: interpSteps(), inprog: map[string]*memoEntry{}, done: map[string]doneEntry{}, minHit: 1 << 30, faultSeen: map[string]bool{},
 		overrides: map[ssa.Value]AV{}, execInstr: map[ssa.Instruction]bool{}, execEdge: map[[2]*ssa.BasicBlock]bool{}}
 	ip.globals = w.globalInits()
 	return ip
@@ -1136,7 +1137,11 @@ func (ip *Interp) evalValue(fr *frame, v ssa.Value, st *Store) (AV, bool) {
 	case *ssa.Next:
 		return AV{K: kTuple, Tup: []AV{avTop, avTop, avTop}}, true
 	case *ssa.Call:
-		return ip.evalCall(fr, x, st)
+		r, ok := ip.evalCall(fr, x, st)
+		if ip.onResult != nil {
+			ip.onResult(x, r)
+		}
+		return r, ok
 	case *ssa.SliceToArrayPointer, *ssa.MultiConvert, *ssa.Select:
 		return avTop, true
 	}
@@ -1564,4 +1569,18 @@ func (ip *Interp) dumpProfile() {
 	for i := 0; i < len(kvs) && i < 15; i++ {
 		fmt.Printf("     prof %8d %s\n", kvs[i].v, kvs[i].k)
 	}
+}
+
+func interpDepth() int {
+	if thoroughBounds {
+		return 40
+	}
+	return 24
+}
+
+func interpSteps() int {
+	if thoroughBounds {
+		return 1000000
+	}
+	return 150000
 }
